@@ -236,6 +236,10 @@ def setup():
 # Composites attached by point matching (firstPt/secondPt): scale_upem raises AttributeError on them
 # (pending finding C17-N8, notes/pending_findings.md).  Switch on once the finding is fixed or registered.
 ANCHORED_COMPOSITES = True
+# Paint traces of variable COLRv1 glyphs at non-default locations: scale_upem scales every delta of the
+# COLR VarStore, also those of variable paint fields that live inside the PaintScale wrapper or are not
+# lengths (pending finding C17-N9, notes/pending_findings.md).  Switch on once fixed or registered.
+COLR_VAR_PAINT_TRACE = False
 PERMS = ["random", "reverse-tail", "transpose", "rotate"]
 MODES = ["bin-default", "bin-lazy", "bin-eager", "ttx"]
 TARGETS = ["half", "double", "1000<->2048", "plus1", "16384", "ratio"]
@@ -307,6 +311,7 @@ def cases(tier, seed):
         if ANCHORED_COMPOSITES and gi < 2:
             gens.append({"kind": "ttcomp", "i": 100 + gi, "params": {"anchors": True}})
         gens.append({"kind": "ttvar", "i": gi, "params": {"hvar": ["none", "map", "direct"][gi % 3]}})
+    gens.append({"kind": "varcolr", "i": 0, "params": {}})
     bmodes = ["bin-default", "bin-lazy", "bin-eager"]
     for n, g in enumerate(gens):
         label = "gen:%s:%d:%s" % (g["kind"], g["i"], ",".join("%s=%s" % kv for kv in sorted(g["params"].items())))
@@ -323,6 +328,32 @@ def cases(tier, seed):
         for t, m in cs_:
             out.append({"id": "scale:%s:%s:%s" % (label, t, m), "op": "scale", "path": label, "member": None, "gen": g,
                         "target": t, "mode": m, "seed": seed, "thorough": T})
+    # operation histories on one TTFont object
+    hfonts = [("subset/data/Lobster.subset.otf", None), ("ttx/data/TestTTF.ttf", None),
+              ("varLib/data/MutatorSans_All_Variable.ttx", None), ("subset/data/TestHVVAR.ttx", None),
+              ("gen:layout:h0", {"kind": "layout", "i": 50, "params": {"ext": True}}),
+              ("gen:ttvar:h0", {"kind": "ttvar", "i": 50, "params": {"hvar": "map"}}),
+              ("ttLib/data/TestVGID-Regular.otf", None)]
+    if T:
+        hfonts += [("fontBuilder/data/test_var.otf.ttx", None), ("merge/data/CFFFont2.ttx", None),
+                   ("ttLib/tables/data/aots/gpos2_1_font7.otf", None), ("ttLib/tables/data/aots/gsub_chaining3_next_glyph_f1.otf", None),
+                   ("subset/data/TestMATH-Regular.ttx", None), ("ttLib/tables/data/COLRv1-clip-boxes-glyf.ttx", None),
+                   ("gen:layout:h1", {"kind": "layout", "i": 51, "params": {"ext": False}}),
+                   ("gen:varcolr", {"kind": "varcolr", "i": 0, "params": {}})]
+    have_paths = {r["path"] for r in recs}
+    hnames = sorted(HISTORIES)
+    for n, (path, g) in enumerate(hfonts):
+        if g is None and path not in have_paths:
+            continue
+        if T:
+            combos_h = [(h, m) for h in hnames for m in ("bin-default", "bin-eager")]
+        else:
+            combos_h = [("reorder,same-list-x2", "bin-default"), (hnames[(n + seed) % len(hnames)], "bin-eager")]
+            if path.endswith("TestVGID-Regular.otf"):
+                combos_h = combos_h[:1]
+        for h, m in dict.fromkeys(combos_h):
+            out.append({"id": "history:%s:%s:%s" % (path, h, m), "op": "history", "path": path, "member": None, "gen": g,
+                        "history": h, "steps": HISTORIES[h], "mode": m, "seed": seed, "thorough": T})
     # scaling a font opened with lazy=True whose GPOS has arrays of more than 8 fixed-size records
     # (read lazily as LazyList): every record must still be visited
     for path, t in (("merge/data/CFFFont2.ttx", "double"), ("merge/data/CFFFont2.ttx", "ratio"),
@@ -347,6 +378,9 @@ def _gen_bytes(gen, seed):
     if gen["kind"] == "layout":
         from vmon.gen import c17_fonts
         return c17_fonts.layout(grnd, **gen.get("params", {}))
+    if gen["kind"] == "varcolr":
+        from vmon.gen import c17_fonts
+        return c17_fonts.varcolr()
     from vmon.gen import c05_fonts
     return c05_fonts.build(gen["kind"], grnd, **gen.get("params", {}))
 
@@ -689,11 +723,16 @@ def _is_invalid_cff2(ctx, e):
     return False
 
 
-def _compare_reordered(ctx, case, rnd, R0, B1, order0, new, tech, tabs, mode):
+def _compare_reordered(ctx, case, rnd, R0, B1, order0, new, tech, tabs, mode, cp_of=None):
     H0, H1 = hbft.HB(R0), hbft.HB(B1)
     idx0 = {g: i for i, g in enumerate(order0)}
     idx1 = {g: i for i, g in enumerate(new)}
+    if cp_of is None:
+        cp_of = {g: PUA + i for g, i in idx0.items()}
     base = {"op": "reorder", "tech": tech, "load": mode}
+    if case.get("history"):
+        base["history"] = case["history"]
+        base["step"] = case.get("_step")
 
     def viol(kind, what, **w):
         ctx.violation(dict(base, kind=kind), "%s [%s, %s]: %s" % (case["path"], case["perm"], mode, what),
@@ -827,7 +866,7 @@ def _compare_reordered(ctx, case, rnd, R0, B1, order0, new, tech, tabs, mode):
             h1 = H1 if vloc is None else hbft.HB(B1, variations=vloc)
             n_bad, ex = 0, None
             for t in texts:
-                cps_t = [PUA + idx0[g] for g in t]
+                cps_t = [cp_of[g] for g in t]
                 r0 = hbft.shape_names(h0, order0, cps_t, features, script=script)
                 r1 = hbft.shape_names(h1, new, cps_t, features, script=script)
                 if r0 != r1:
@@ -1229,6 +1268,77 @@ def _compare_memory_boxes(ctx, case, b0, b1, U, U1, mode):
                       {"font": case["path"], "glyph": name, "upem": U, "new_upem": U1, "load": mode})
 
 
+def _paint_trace(h, gid):
+    """Flattened HarfBuzz paint trace of a colour glyph: clip rectangles, glyph clips with the accumulated
+    transform, colours, gradient kinds."""
+    import uharfbuzz as hb
+
+    ev = []
+    stack = [(1.0, 0.0, 0.0, 1.0, 0.0, 0.0)]
+
+    def mul(m, n):
+        a, b, c, d, e, f = m
+        A, B_, C, D, E, F = n
+        return (a * A + c * B_, b * A + d * B_, a * C + c * D, b * C + d * D, a * E + c * F + e, b * E + d * F + f)
+
+    pf = hb.PaintFuncs()
+    pf.set_push_transform_func(lambda xx, yx, xy, yy, dx, dy, st: stack.append(mul(stack[-1], (xx, yx, xy, yy, dx, dy))))
+    pf.set_pop_transform_func(lambda st: stack.pop() if len(stack) > 1 else None)
+    pf.set_push_clip_glyph_func(lambda g, st: ev.append(("clip-glyph", g, stack[-1])))
+    pf.set_push_clip_rectangle_func(lambda x0, y0, x1, y1, st: ev.append(("clip-rect", (x0, y0, x1, y1), stack[-1])))
+    pf.set_pop_clip_func(lambda st: ev.append(("pop-clip",)))
+    pf.set_push_group_func(lambda st: ev.append(("push-group",)))
+    pf.set_pop_group_func(lambda mode, st: ev.append(("pop-group", int(mode))))
+    pf.set_color_func(lambda color, fg, st: ev.append(("color", (color.red, color.green, color.blue, color.alpha), bool(fg))))
+    pf.set_linear_gradient_func(lambda *a: ev.append(("linear-gradient",)))
+    pf.set_radial_gradient_func(lambda *a: ev.append(("radial-gradient",)))
+    pf.set_sweep_gradient_func(lambda *a: ev.append(("sweep-gradient",)))
+    try:
+        h.font.paint_glyph(gid, pf)
+    except Exception:
+        return None
+    return ev
+
+
+def _paint_trace_diff(t0, t1, s, tol_rect, full=True):
+    """None when the trace after scaling is the original one scaled by s: clip rectangles x s within the
+    rounding budget; the accumulated transform of every glyph clip has the same linear part (the scaler
+    wraps the graph in PaintScale(s) and each PaintGlyph in PaintScale(1/s), both quantised to F2Dot14 or
+    16.16) and its translation x s; colours identical."""
+    if t0 is None or t1 is None:
+        return None
+    if [e[0] for e in t0] != [e[0] for e in t1]:
+        return "paint operations differ: %r vs %r" % ([e[0] for e in t0][:8], [e[0] for e in t1][:8])
+    q = 2.0 ** -14 * (abs(s) + abs(1 / s) + 1)
+    for a, b in zip(t0, t1):
+        if a[0] == "clip-rect":
+            ma, mb = a[2], b[2]
+            if any(abs(y - s * x) > tol_rect + 1e-6 for x, y in zip(_xf_rect(a[1], ma), _xf_rect(b[1], mb))):
+                return "clip rectangle %r -> %r" % (a[1], b[1])
+        elif not full:
+            continue
+        elif a[0] == "clip-glyph":
+            if a[1] != b[1]:
+                return "glyph clip gid %r -> %r" % (a[1], b[1])
+            ma, mb = a[2], b[2]
+            if any(abs(x - y) > q * (1 + abs(x)) for x, y in zip(ma[:4], mb[:4])):
+                return "transform of glyph clip %d: linear part %r -> %r" % (a[1], tuple(round(v, 4) for v in ma[:4]), tuple(round(v, 4) for v in mb[:4]))
+            if any(abs(y - s * x) > 0.02 + q * abs(s * x) for x, y in zip(ma[4:], mb[4:])):
+                return "transform of glyph clip %d: translation %r -> %r, expected x%.4f" % (a[1], tuple(round(v, 3) for v in ma[4:]), tuple(round(v, 3) for v in mb[4:]), s)
+        elif a[0] == "color":
+            if a[1:] != b[1:]:
+                return "colour %r -> %r" % (a[1], b[1])
+        elif a != b:
+            return "%r -> %r" % (a, b)
+    return None
+
+
+def _xf_rect(r, m):
+    a, b, c, d, e, f = m
+    x0, y0, x1, y1 = r
+    return (a * x0 + c * y0 + e, b * x0 + d * y0 + f, a * x1 + c * y1 + e, b * x1 + d * y1 + f)
+
+
 def _run_scale(case, ctx, rnd):
     from fontTools.ttLib.scaleUpem import scale_upem
 
@@ -1291,12 +1401,15 @@ def _run_scale(case, ctx, rnd):
     _compare_scaled(ctx, case, rnd, R0, B1, order, tech, tabs, mode, U, target, T0)
 
 
-def _compare_scaled(ctx, case, rnd, R0, B1, order, tech, tabs, mode, U, U1, T0):
+def _compare_scaled(ctx, case, rnd, R0, B1, order, tech, tabs, mode, U, U1, T0, cp_of=None):
     s = U1 / U
     sF = Fraction(U1, U)
     int_factor = U1 % U == 0
     H0, H1 = hbft.HB(R0), hbft.HB(B1)
     base = {"op": "scale", "tech": tech}
+    if case.get("history"):
+        base["history"] = case["history"]
+        base["step"] = case.get("_step")
     label = "%s [upem %d -> %d, %s]" % (case["path"], U, U1, mode)
 
     def viol(kind, what, **m):
@@ -1424,6 +1537,46 @@ def _compare_scaled(ctx, case, rnd, R0, B1, order, tech, tabs, mode, U, U1, T0):
                  which=k, loc="default" if loc is None else "variation",
                  metrics=("HVAR" if "HVAR" in tabs else "gvar-phantom" if "gvar" in tabs else "hmtx") if k == "h" else ("VVAR" if "VVAR" in tabs else "vmtx"),
                  factor="integer" if int_factor else "fractional", witness={"glyph": first[k][0], "location": loc})
+    # ---- colour glyphs: extents (clip boxes) and paint traces, default and variation locations ------
+    if "COLR" in tabs and H0.face.has_color_paint:
+        for loc in locs:
+            h0 = H0 if loc is None else hbft.HB(R0, variations=loc)
+            h1 = H1 if loc is None else hbft.HB(B1, variations=loc)
+            nloc = dict(zip(B.axes, h0.normalized_coords())) if loc is not None else None
+            S = (B.store_sum("COLR", nloc) if nloc else 0.0)
+            if S is None:
+                S = len(B.axes) * 4.0
+            # one rounding per stored value (default and each delta) and the engine's (outward) rounding on
+            # both sides; judged for glyphs whose extents are a ClipBox (others are bounds of transformed
+            # geometry, amplified by the paint transforms)
+            tol_e = 0.0 if (int_factor and loc is None) else 0.5 * (1 + S) + 1.0 + s
+            nb, ex = Counter(), {}
+            for gid, name in enumerate(order):
+                if gid >= H0.glyph_count or not H0.face.glyph_has_color_paint(gid):
+                    continue
+                if not H1.face.glyph_has_color_paint(gid):
+                    nb["presence"] += 1
+                    ex.setdefault("presence", (name, "colour paint lost"))
+                    continue
+                e0, e1 = h0.font.get_glyph_extents(gid), h1.font.get_glyph_extents(gid)
+                tr0, tr1 = _paint_trace(h0, gid), _paint_trace(h1, gid)
+                has_box = bool(tr0) and tr0[0][0] == "clip-rect"
+                ctx.judged()
+                if e0 is not None and e1 is not None and has_box:
+                    t0 = (e0.x_bearing, e0.y_bearing, e0.width, e0.height)
+                    t1 = (e1.x_bearing, e1.y_bearing, e1.width, e1.height)
+                    if any(abs(b - s * a) > tol_e * (1 if i < 2 else 2) + 1e-6 for i, (a, b) in enumerate(zip(t0, t1))):
+                        nb["extents"] += 1
+                        ex.setdefault("extents", (name, "extents %r -> %r, expected x%.4f (budget %.2f)" % (t0, t1, s, tol_e)))
+                ctx.judged()
+                why = _paint_trace_diff(tr0, tr1, s, tol_e,
+                                        full=(loc is None or COLR_VAR_PAINT_TRACE))
+                if why:
+                    nb["paint"] += 1
+                    ex.setdefault("paint", (name, why))
+            for k, n in nb.items():
+                viol("colr", "%d colour glyphs at %s: %s; e.g. %r: %s" % (n, loc or "default", k, ex[k][0], ex[k][1]),
+                     aspect=k, loc="default" if loc is None else "variation", witness={"glyph": ex[k][0], "location": loc})
     # ---- vertical origins (VORG / vmtx+glyf) -----------------------------------
     if "VORG" in tabs or "vmtx" in tabs:
         nb, ex = 0, None
@@ -1680,7 +1833,7 @@ def _compare_scaled(ctx, case, rnd, R0, B1, order, tech, tabs, mode, U, U1, T0):
             h1 = H1 if vloc is None else hbft.HB(B1, variations=vloc)
             n_bad, ex = 0, None
             for t in texts:
-                cps_t = [PUA + idx[g] for g in t]
+                cps_t = [(cp_of[g] if cp_of else PUA + idx[g]) for g in t]
                 r0 = h0.shape(cps_t, features, script=script)
                 r1 = h1.shape(cps_t, features, script=script)
                 if vloc is None and int_factor and exact_font:
@@ -1715,12 +1868,96 @@ def _compare_scaled(ctx, case, rnd, R0, B1, order, tech, tabs, mode, U, U1, T0):
     ctx.nontrivial("scale/%s/%s/%s/%s" % (tech.strip(), mode, fclass, layout))
 
 
+# ---------------------------------------------------------------- operation histories on one TTFont
+HISTORIES = {
+    "reorder,same-list-x2": ["reorder:random", "reorder-same-list:rotate", "reorder-same-list:transpose"],
+    "reorder,fresh-list": ["reorder:rotate", "reorder:random"],
+    "reorder,scale,reorder": ["reorder:random", "scale:double", "reorder:reverse-tail"],
+    "reorder,scale,same-list": ["reorder:transpose", "scale:half", "reorder-same-list:random"],
+    "scale,scale-back": ["scale:ratio", "scale-back"],
+    "scale,reorder,scale-back": ["scale:1000<->2048", "reorder:random", "scale-back"],
+}
+
+
+def _run_history(case, ctx, rnd):
+    """Several operations in a row on ONE TTFont object, compiling all tables after each; every
+    step is judged against the bytes saved after the previous step (which were judged
+    themselves), through the same comparators as the single operations."""
+    from fontTools.ttLib.reorderGlyphs import reorderGlyphs
+    from fontTools.ttLib.scaleUpem import scale_upem
+
+    B0 = _prepare(ctx, case["path"], case.get("member"), case.get("gen"), case["seed"])
+    mode = case["mode"]
+    ref = _load_subject(ctx, case, B0)
+    order0 = list(ref.getGlyphOrder())
+    tech = _tech(ref)
+    try:
+        with ctx.lib("ensureDecompiled-control"):
+            ref.ensureDecompiled()
+        with ctx.lib("save-control"):
+            prev = corpus.save_bytes(ref)
+    except Exception as e:
+        if _is_invalid_cff2(ctx, e):
+            return
+        raise
+    cp_of = {g: PUA + i for i, g in enumerate(order0)}
+    subj = _load_subject(ctx, case, B0)
+    tabs = sorted(t for t in subj.keys() if t != "GlyphOrder")
+    U0 = U = hbft.HB(prev).upem
+    ctx.sample = {"font": case["path"], "op": "history", "history": case["history"], "steps": case["steps"], "load": mode,
+                  "glyphs": len(order0), "tech": tech}
+    prev_order = order0
+    L = None
+    extra = {"load": mode, "tech": tech, "history": case["history"]}
+    for k, step in enumerate(case["steps"]):
+        what, _, arg = step.partition(":")
+        ck = dict(case, perm=step, _step=k + 1)
+        try:
+            if what in ("reorder", "reorder-same-list"):
+                new = _permute(arg, prev_order, rnd)
+                if new == prev_order:
+                    ctx.skip("permutation is the identity (fewer than 3 glyphs)")
+                    return
+                if what == "reorder-same-list" and L is not None:
+                    L[:] = new            # the caller's own list, which the font now holds, permuted in place
+                else:
+                    L = list(new)
+                with ctx.lib("reorderGlyphs", step=k + 1, **extra):
+                    reorderGlyphs(subj, L)
+                with ctx.lib("save-after-reorder", step=k + 1, **extra):
+                    cur = corpus.save_bytes(subj)
+                _compare_reordered(ctx, ck, rnd, prev, cur, prev_order, list(new), tech, tabs, mode, cp_of)
+                prev_order = list(new)
+            else:
+                Hp = hbft.HB(prev)
+                Tp = ST.sfnt_tables(prev)
+                target = U0 if what == "scale-back" else _pick_target(arg, U, _maxabs(Hp, Tp), rnd)
+                if target is None or target == U:
+                    ctx.skip("no representable target upem")
+                    return
+                with ctx.lib("scale_upem", step=k + 1, **extra):
+                    scale_upem(subj, target)
+                with ctx.lib("save-after-scale", step=k + 1, colr="COLR" in tabs, **extra):
+                    cur = corpus.save_bytes(subj)
+                _compare_scaled(ctx, ck, rnd, prev, cur, prev_order, tech, tabs, mode, U, target, Tp, cp_of)
+                U = target
+        except Exception as e:
+            if _is_invalid_cff2(ctx, e):
+                return
+            raise
+        prev = cur
+    layout = "+".join(t for t in ("GSUB", "GPOS", "gvar", "HVAR", "COLR", "CFF ", "CFF2") if t in tabs)
+    ctx.nontrivial("history/%s/%s/%s/%s" % (case["history"], tech.strip(), mode, layout))
+
+
 # ---------------------------------------------------------------- run
 def run_case(case, ctx):
     rnd = random.Random("%s/%s" % (case["id"], case["seed"]))
     _cur["obs"] = Counter()
     if case["op"] == "reorder":
         _run_reorder(case, ctx, rnd)
+    elif case["op"] == "history":
+        _run_history(case, ctx, rnd)
     else:
         _run_scale(case, ctx, rnd)
     for k, v in _cur["obs"].items():
